@@ -313,6 +313,37 @@ def evalFs (p : Pending) (glob : Oracle) (obsToks : List String) : String :=
   let head := s!"RES {p.prop} {p.id} eq={b eq} hm={b hm} hi={b hi} miss={b miss} crash={b (obsToks.contains "crash")}"
   if eq && hi && hm && !miss then head else head ++ " | " ++ showLog pm ++ " | " ++ showLog pi
 
+/-! language `slot` -/
+
+def evalSlot (p : Pending) (glob : Oracle) (obsToks : List String) : String :=
+  let ora : Oracle := { urls := glob.urls ++ p.ora.urls, pages := glob.pages ++ p.ora.pages, misc := p.ora.misc }
+  let env := ora.env
+  let (regs, evs) := p.toks.foldl (fun (acc : List SlotHandler.Reg × List Event) t =>
+    let (rs, es) := acc
+    match fields t with
+    | ["reg", n, kind, ra] =>
+      (rs ++ [{ name := unhex16 n, idx := rs.length, good := kind == "old" || kind == "pmf" || kind == "functor", readAll := ra == "1" }], es)
+    | _ => match parseEvent t with | some e => (rs, es ++ [e]) | none => (rs, es)) ([], [])
+  let p16 := (ora.misc.findSome? fun f => match f with | ["p16", x] => some (unhex16 x) | _ => none).getD []
+  let path := p16.drop 1
+  let app := SlotHandler.app regs path
+  let mlog := (Scenario.run env { app := app, events := evs }).log
+  let ilog := (obsToks.filter (· != "end")).filterMap parseObs
+  let badTok := obsToks.filter (fun t => t != "end" && (parseObs t).isNone)
+  let keepR (o : Obs) : Bool := match o with | .del => false | .dc => false | .rr => false | .bw _ => false | _ => true
+  let pm := mergeW (mlog.filter keepR)
+  let pi := mergeW (ilog.filter keepR)
+  let stream := Scenario.fed evs
+  let accepted := match C01.headOf stream with | some h => (C01.expect env h).isSome | none => false
+  let rq := C02.req env stream
+  let eq := pm == pi
+  let hm := C15.holds regs path accepted rq mlog
+  let hi := C15.holds regs path accepted rq ilog
+  let miss := containsMiss mlog || !badTok.isEmpty
+  let b (x : Bool) := if x then "1" else "0"
+  let head := s!"RES {p.prop} {p.id} eq={b eq} hm={b hm} hi={b hi} miss={b miss} crash={b (obsToks.contains "crash")}"
+  if eq && hi && hm && !miss then head else head ++ " | " ++ showLog pm ++ " | " ++ showLog pi
+
 partial def loop (h : IO.FS.Stream) (glob : Oracle) (cur : Pending) : IO Unit := do
   let line ← h.getLine
   if line.isEmpty then return ()
@@ -332,6 +363,7 @@ partial def loop (h : IO.FS.Stream) (glob : Oracle) (cur : Pending) : IO Unit :=
       | "auth" => evalAuth cur glob rest
       | "copier" => evalCopier cur rest
       | "fs" => evalFs cur glob rest
+      | "slot" => evalSlot cur glob rest
       | l => s!"RES {cur.prop} {cur.id} eq=0 hm=0 hi=0 miss=1 crash=0 | unknown language {l}"
     IO.println out
     loop h glob cur
